@@ -558,6 +558,13 @@ def C15(ctx):
     # a thread that holds a park token is still a thread that can continue
     pool = [dsl.normalize(families.P("token-holder-keeps-running", [dsl.spawn(2), dsl.unpark(2), dsl.fadd("x", 1, "acqrel"), dsl.fadd("x", 2, "acqrel"), dsl.join(2)],
                                      [dsl.fadd("x", 4, "acqrel"), dsl.fadd("x", 8, "acqrel"), dsl.I("park")])),
+            # the later of two racing threads is blocked (parked / joining) at the earlier access; a third thread wakes it
+            dsl.normalize(families.P("parked-racer", [dsl.spawn(2), dsl.spawn(3), dsl.spawn(4), dsl.join(2), dsl.join(3), dsl.join(4)],
+                                     [dsl.I("park"), dsl.fadd("x", 10, "sc")], [dsl.st("x", 1, "sc")], [dsl.unpark(2)])),
+            dsl.normalize(families.P("joining-racer", [dsl.spawn(2), dsl.spawn(3), dsl.join(2), dsl.join(3)],
+                                     [dsl.spawn(4), dsl.join(4), dsl.fadd("x", 10, "sc")], [dsl.st("x", 1, "sc")], [dsl.ld("y")])),
+            dsl.normalize(families.P("receiving-racer", [dsl.spawn(2), dsl.spawn(3), dsl.spawn(4), dsl.join(2), dsl.join(3), dsl.join(4)],
+                                     [dsl.I("recv", "ch"), dsl.fadd("x", 10, "sc"), dsl.I("droprx", "ch")], [dsl.st("x", 1, "sc")], [dsl.I("send", "ch", v=5)])),
             dsl.normalize(families.P("token-holder-3", [dsl.spawn(2), dsl.spawn(3), dsl.unpark(3), dsl.ld("x"), dsl.join(2), dsl.join(3)],
                                      [dsl.fadd("x", 1), dsl.ld("y")], [dsl.st("y", 1), dsl.fadd("x", 2), dsl.I("park")]))] + pool
     # unbounded reference
